@@ -31,7 +31,7 @@ type c04DHCP struct {
 	calls  int
 }
 
-func (d *c04DHCP) Leases() (leases []*dhcpsvc.Lease) { return nil }
+func (d *c04DHCP) Leases() (leases []*dhcpsvc.Lease)   { return nil }
 func (d *c04DHCP) HostByIP(_ netip.Addr) (host string) { return "" }
 func (d *c04DHCP) MACByIP(ip netip.Addr) (mac net.HardwareAddr) {
 	d.calls++
@@ -178,10 +178,10 @@ type c04Client struct {
 	ss    *c04SafeSearch
 }
 
-func (c *c04Client) ownsIP(a netip.Addr) bool      { return slices.Contains(c.ips, a) }
-func (c *c04Client) ownsNet(p netip.Prefix) bool   { return slices.Contains(c.nets, p) }
-func (c *c04Client) ownsMAC(m string) bool         { return slices.Contains(c.macs, m) }
-func (c *c04Client) ownsCID(s string) bool         { return slices.Contains(c.cids, s) }
+func (c *c04Client) ownsIP(a netip.Addr) bool    { return slices.Contains(c.ips, a) }
+func (c *c04Client) ownsNet(p netip.Prefix) bool { return slices.Contains(c.nets, p) }
+func (c *c04Client) ownsMAC(m string) bool       { return slices.Contains(c.macs, m) }
+func (c *c04Client) ownsCID(s string) bool       { return slices.Contains(c.cids, s) }
 func (c *c04Client) bestNet(a netip.Addr) (b int) {
 	b = -1
 	a = a.WithZone("")
@@ -268,7 +268,8 @@ type c04State struct {
 	nextUID int
 	ops     []c04Op
 	failed  bool
-	lastOp  string
+	lastOp  string // full kind of the last operation, e.g. rejected-update-steal-id (witness only)
+	lastFam string // its family, used in violation keys: add, update, remove, lease-change, construction, rejected-add, rejected-update, remove-of-unknown-name
 
 	ownerChanges int
 	rejected     int
@@ -510,7 +511,7 @@ func (h *c04State) checkFind(probe, kind, tier string, cands []*c04Client, got *
 		h.violate("find:"+kind+":ok-with-nil-client", "Find reported ok with a nil client", map[string]any{"probe": probe})
 		return
 	}
-	ctx := ":after-" + h.lastOp
+	ctx := ":after-" + h.lastFam
 	if len(cands) == 0 {
 		if ok {
 			h.violate("find:"+kind+":want-nobody:got-"+h.relation(gotName, cid, a, mac)+ctx,
@@ -640,7 +641,7 @@ func (h *c04State) wantRequest(cid string, a netip.Addr) (cands []*c04Client, ti
 }
 
 func (h *c04State) checkApply(cid string, a netip.Addr, g bool, got c04ApplyOut, cands []*c04Client, tier string) {
-	ctx := ":after-" + h.lastOp
+	ctx := ":after-" + h.lastFam
 	detail := func(want any) map[string]any {
 		return map[string]any{"request": map[string]any{"clientid": cid, "addr": a.String()}, "global_switches_all": g,
 			"got": got, "want": want, "want_tier": tier, "want_owner": c04Names2(cands)}
@@ -697,14 +698,14 @@ func (h *c04State) probeAll(pr *c04Probes, e2e *rand.Rand) (obs []string) {
 		c := h.byName(n)
 		switch {
 		case c == nil && ok:
-			h.violate("findbyname:want-nobody:got-client:after-"+h.lastOp, fmt.Sprintf("FindByName(%q) finds a client, the registry has none of that name", n),
+			h.violate("findbyname:want-nobody:got-client:after-"+h.lastFam, fmt.Sprintf("FindByName(%q) finds a client, the registry has none of that name", n),
 				map[string]any{"probe": n, "got": c04RecordView(got)})
 		case c != nil && (!ok || got == nil):
-			h.violate("findbyname:want-client:got-nobody:after-"+h.lastOp, fmt.Sprintf("FindByName(%q) finds nothing, the registry has that client", n),
+			h.violate("findbyname:want-client:got-nobody:after-"+h.lastFam, fmt.Sprintf("FindByName(%q) finds nothing, the registry has that client", n),
 				map[string]any{"probe": n, "want": c.view()})
 		case c != nil:
 			if f := c04RecordMatches(got, c); f != "" {
-				h.violate("findbyname:stale-record:"+f+":after-"+h.lastOp, fmt.Sprintf("FindByName(%q) returns %s that differ from the client's current version", n, f),
+				h.violate("findbyname:stale-record:"+f+":after-"+h.lastFam, fmt.Sprintf("FindByName(%q) returns %s that differ from the client's current version", n, f),
 					map[string]any{"probe": n, "got": c04RecordView(got), "want": c.view()})
 			}
 		}
@@ -723,19 +724,19 @@ func (h *c04State) probeAll(pr *c04Probes, e2e *rand.Rand) (obs []string) {
 	sort.Strings(wantNames)
 	obs = append(obs, "range="+strings.Join(ranged, ","), fmt.Sprintf("size=%d", h.st.Size()))
 	if !slices.Equal(ranged, wantNames) {
-		h.violate("rangebyname:client-set:after-"+h.lastOp, "RangeByName does not enumerate exactly the registry's clients in name order",
+		h.violate("rangebyname:client-set:after-"+h.lastFam, "RangeByName does not enumerate exactly the registry's clients in name order",
 			map[string]any{"got": ranged, "want": wantNames})
 		return obs
 	}
 	for i, r := range rangedRecs {
 		if f := c04RecordMatches(r, h.byName(ranged[i])); f != "" {
-			h.violate("rangebyname:stale-record:"+f+":after-"+h.lastOp, "RangeByName yields a record that differs from the client's current version",
+			h.violate("rangebyname:stale-record:"+f+":after-"+h.lastFam, "RangeByName yields a record that differs from the client's current version",
 				map[string]any{"got": c04RecordView(r), "want": h.byName(ranged[i]).view()})
 			return obs
 		}
 	}
 	if n := h.st.Size(); n != len(h.clients) {
-		h.violate("size:after-"+h.lastOp, fmt.Sprintf("Size()=%d, registry has %d clients", n, len(h.clients)), nil)
+		h.violate("size:after-"+h.lastFam, fmt.Sprintf("Size()=%d, registry has %d clients", n, len(h.clients)), nil)
 		return obs
 	}
 
@@ -854,7 +855,7 @@ func (h *c04State) probeAll(pr *c04Probes, e2e *rand.Rand) (obs []string) {
 				}
 			}
 			if !okAny {
-				h.violate("filtering-module:blocked-service-rules:after-"+h.lastOp,
+				h.violate("filtering-module:blocked-service-rules:after-"+h.lastFam,
 					fmt.Sprintf("request (ClientID %q, %s): services whose rules apply are %v for client %q", cid, a, svc, setts.ClientName),
 					map[string]any{"request": map[string]any{"clientid": cid, "addr": a.String()}, "got_services": svc,
 						"got_client": setts.ClientName, "want_services_one_of": wants, "want_tier": tier})
@@ -1196,6 +1197,7 @@ func (h *c04State) step(g *c04Gen, i int) (rejected bool, opKind string) {
 		if !ok {
 			h.lastOp = "remove-of-unknown-name"
 		}
+		h.lastFam = h.lastOp
 		h.ops = append(h.ops, op)
 		switch {
 		case t != nil && !ok:
@@ -1233,7 +1235,7 @@ func (h *c04State) step(g *c04Gen, i int) (rejected bool, opKind string) {
 			op.Lease = a.String() + " -> " + m.String()
 		}
 		op.Expected, op.Result = "ok", "ok"
-		h.lastOp = "lease-change"
+		h.lastOp, h.lastFam = "lease-change", "lease-change"
 		h.ops = append(h.ops, op)
 		rep.Event("ops_lease_change")
 	}
@@ -1281,11 +1283,11 @@ func (h *c04State) doAddOrUpdate(ctx context.Context, op *c04Op, target string, 
 	}
 	if err != nil {
 		op.Result = "error: " + err.Error()
-		h.lastOp = "rejected-" + kind
+		h.lastOp, h.lastFam = "rejected-"+kind, "rejected-"+op.Kind
 		h.rejected++
 	} else {
 		op.Result = "ok"
-		h.lastOp = kind
+		h.lastOp, h.lastFam = kind, op.Kind
 	}
 	h.ops = append(h.ops, *op)
 
@@ -1310,7 +1312,7 @@ func (h *c04State) doAddOrUpdate(ctx context.Context, op *c04Op, target string, 
 		if unspec {
 			break
 		}
-		h.violate("valid-operation-rejected:"+kind,
+		h.violate("valid-operation-rejected:"+op.Kind,
 			fmt.Sprintf("%s of client %q was rejected (%v) although it shares no name or identifier with another client", op.Kind, op.Client.Name, err), nil)
 		return
 	case clash != "":
@@ -1391,7 +1393,7 @@ func TestVerifC04(t *testing.T) {
 			h := &c04State{rep: rep, flt: flt, dhcp: &c04DHCP{leases: map[netip.Addr]net.HardwareAddr{}}, lastOwner: map[string]int{}}
 			defer func() {
 				if r := recover(); r != nil {
-					h.violate("panic:after-"+h.lastOp, fmt.Sprintf("client storage panicked: %v", r), nil)
+					h.violate("panic:after-"+h.lastFam, fmt.Sprintf("client storage panicked: %v", r), nil)
 				}
 			}()
 			ctx := context.Background()
@@ -1426,7 +1428,7 @@ func TestVerifC04(t *testing.T) {
 				InitialClients: initial,
 			})
 			initial = nil
-			h.lastOp = "construction"
+			h.lastOp, h.lastFam = "construction", "construction"
 			if serr != nil {
 				h.violate("valid-operation-rejected:initial-clients", "NewStorage rejected initial clients that share nothing: "+serr.Error(), nil)
 				return
@@ -1449,7 +1451,7 @@ func TestVerifC04(t *testing.T) {
 				if rejected {
 					rep.Event("ops_rejected_total")
 					if !slices.Equal(prev, obs) {
-						h.violate("rejected-operation-changed-lookups:"+h.lastOp,
+						h.violate("rejected-operation-changed-lookups:"+h.lastFam,
 							"an operation that returned an error changed the result of some lookup",
 							map[string]any{"changed_probes": c04ObsDiff(prev, obs)})
 						break
